@@ -115,6 +115,23 @@ pub fn wall_ns() -> u64 {
     }
     ts.tv_sec as u64 * 1_000_000_000 + ts.tv_nsec as u64
 }
+static BUSY: AtomicU64 = AtomicU64::new(0);
+/// While a `Busy` exists the watchdog allows two minutes instead of `TRH_HANG_MS`: a real-thread scenario (stress
+/// run, scheduled threads, a queue for a machine-wide lock) legitimately makes no log progress for a while,
+/// especially on a loaded machine.
+pub struct Busy;
+impl Busy {
+    pub fn new() -> Busy {
+        BUSY.fetch_add(1, Ordering::SeqCst);
+        Busy
+    }
+}
+impl Drop for Busy {
+    fn drop(&mut self) {
+        BUSY.fetch_sub(1, Ordering::SeqCst);
+        beat();
+    }
+}
 /// progress: a case begins, an operation begins, a line is logged
 pub fn beat() {
     BEAT.fetch_add(1, Ordering::Relaxed);
@@ -149,7 +166,8 @@ pub fn start_watchdog(limit_ms: u64) {
                 since = now;
                 continue;
             }
-            if now.saturating_sub(since) < limit_ms * 1_000_000 {
+            let limit = if BUSY.load(Ordering::SeqCst) > 0 { limit_ms.max(120_000) } else { limit_ms };
+            if now.saturating_sub(since) < limit * 1_000_000 {
                 continue;
             }
             let mut text = String::new();
